@@ -787,6 +787,8 @@ def gencov_report():
                     if isinstance(n, ast.stmt) and n is not node and not isinstance(n, (ast.Import, ast.ImportFrom, ast.FunctionDef, ast.AsyncFunctionDef)):
                         if isinstance(n, ast.Expr) and isinstance(n.value, ast.Constant) and isinstance(n.value.value, str):
                             continue
+                        if isinstance(n, ast.AnnAssign) and n.value is None:
+                            continue  # a bare annotation executes nothing
                         stm.add(n.lineno)
                 if not stm:
                     continue
